@@ -62,6 +62,7 @@ func (b Buffer) RedactableBytes() m.RedactableBytes {
 	// NB: we're dependent on the fact this is a copy of the original
 	// buffer. The finalize() method should not be called
 	// in a conceputally read-only accessor like RedactableBytes().
+	b.clipCap()
 	b.finalize()
 	return m.RedactableBytes(b.buf)
 }
@@ -71,6 +72,7 @@ func (b Buffer) RedactableString() m.RedactableString {
 	// NB: we're dependent on the fact this is a copy of the original
 	// buffer. The finalize() method should not be called
 	// in a conceputally read-only accessor like RedactableString().
+	b.clipCap()
 	b.finalize()
 	return m.RedactableString(b.buf)
 }
@@ -80,6 +82,7 @@ func (b Buffer) String() string {
 	// NB: we're dependent on the fact this is a copy of the original
 	// buffer. The finalize() method should not be called
 	// in a conceputally read-only accessor like String().
+	b.clipCap()
 	b.finalize()
 	return m.RedactableString(b.buf).StripMarkers()
 }
@@ -112,9 +115,22 @@ func (b *Buffer) TakeRedactableString() m.RedactableString {
 	return r
 }
 
+// clipCap removes the spare capacity from b's view of its backing
+// array. The read-only accessors call it on their private copy of the
+// buffer before finalize(): the copy shares its backing array with the
+// original, and the closing marker that finalize() may append must go
+// to a new array, not into the spare capacity of the shared one.
+// Writing there would make two goroutines that merely read the same
+// buffer (for example by printing the same StringBuilder value) race
+// with each other.
+func (b *Buffer) clipCap() {
+	b.buf = b.buf[:len(b.buf):len(b.buf)]
+}
+
 // Len returns the number of bytes in the buffer.
 func (b *Buffer) Len() int {
 	copy := *b
+	copy.clipCap()
 	copy.finalize()
 	return len(copy.buf)
 }
